@@ -299,7 +299,7 @@ func (c *Ctx) rejectsEmptyArg(fn *ssa.Function) bool {
 							elems, unknown := c.listElems(x)
 							okList := len(unknown) == 0 && len(elems) > 0
 							for _, e := range elems {
-								if c.splitItem(e, false) != "" {
+								if c.splitItem(e, false) != "" && c.splitItem(e, true) != "" {
 									okList = false
 								}
 							}
